@@ -1460,13 +1460,13 @@ class DiskRefsContainer(RefsContainer):
                 # Never pack HEAD
                 continue
             if all or ref.startswith(LOCAL_TAG_PREFIX):
-                try:
-                    sha = self[ref]
-                    if sha:
-                        refs_to_pack[ref] = sha
-                except KeyError:
-                    # Broken ref, skip it
-                    pass
+                contents = self.read_ref(ref)
+                if not contents or contents.startswith(SYMREF):
+                    # packed-refs cannot represent symbolic refs (git
+                    # pack-refs leaves them loose); packing the resolved
+                    # value would silently turn the symref into a direct ref
+                    continue
+                refs_to_pack[ref] = ObjectID(contents)
 
         if refs_to_pack:
             self.add_packed_refs(refs_to_pack)
